@@ -63,9 +63,12 @@ class State:
 
 class SymX:
     def __init__(self, fn_node, decide=None, call_hook=None, attr_hook=None, init_env=None,
-                 max_paths=512, consts=None, follow_except=True, unpack_hook=None, container_identity=True):
+                 max_paths=512, consts=None, follow_except=True, unpack_hook=None, container_identity=True, distinct_loop_vars=False):
         self.unpack_hook = unpack_hook
         self.container_identity = container_identity
+        a = getattr(fn_node, 'args', None)
+        self.param_names = {x.arg for x in (a.posonlyargs + a.args + a.kwonlyargs)} if a is not None else set()
+        self.distinct_loop_vars = distinct_loop_vars
         self.fn = fn_node
         self.decide = decide
         self.max_paths = max_paths
@@ -187,7 +190,8 @@ class SymX:
             for n in ast.walk(st.target):
                 if isinstance(n, ast.Name):
                     s.ver[n.id] = s.ver.get(n.id, 0) + 1
-                    lin.env[n.id] = Form.atom(n.id)
+                    shadows = n.id in lin.env or n.id in self.param_names
+                    lin.env[n.id] = Form.atom('%s~L%d' % (n.id, st.lineno) if shadows and self.distinct_loop_vars else n.id)
                     s.tup.pop(n.id, None)
             # names assigned in the body are unknown at loop entry only if
             # they are read before being written; we keep entry values (first iteration)
